@@ -1,5 +1,6 @@
 import Driver.Proto
 import PqModel.SearchMulti
+import PqModel.SearchNaN
 
 namespace Driver.Ops.C06
 open Driver
@@ -26,6 +27,10 @@ def parseChunk? (s : String) : Option PqModel.Search.Chunk :=
 def parseChunks? (s : String) : Option (List PqModel.Search.Chunk) :=
   if s == "-" then some [] else (s.splitOn "|").mapM parseChunk?
 
+/-- float bound: int rank, `n` = null, `nan` -/
+def parseFB? (s : String) : Option PqModel.Search.FB :=
+  if s == "n" then some .null else if s == "nan" then some .nan else (s.toInt?).map .val
+
 def showBound : PqModel.Search.Bound → String
   | none => "n"
   | some x => toString x
@@ -33,6 +38,8 @@ def showBound : PqModel.Search.Bound → String
 /-- `find <asc 0/1> <zero-rank> <mins> <maxs> <v>` (bounds: int or `n`) -> `ok <page> <boundary order>`
     (nulls-last compare, as `Search`); `find.nf <nullsFirst 0/1> <asc> <zero-rank> <mins> <maxs> <v>` gives the
     null ordering of the compare function handed to `Find`.
+    `find.z2 <nullsFirst> <asc> <zero-rank of mins> <zero-rank of maxs> <mins> <maxs> <v>`: placeholders of null pages differ per list.
+    `find.f <nullsFirst> <asc> <zero-rank> <mins> <maxs> <v>`: the same over float bounds (int | `n` | `nan`).
     `multi.find <nullsFirst> <zero-rank> <chunks> <probes>` -> `ok <page per probe> <IsAscending> <IsDescending> <NumPages>
     <NullPage list> <MinValue list> <MaxValue list>` of the multiColumnIndex over the chunk indexes, every
     access through the `mapPageIndex` mirror. -/
@@ -51,6 +58,20 @@ def handle (toks : List String) : Option String :=
       let ix : PqModel.Search.Index := { mins := mn, maxs := mx }
       if mn.length ≠ mx.length || (nf != "0" && nf != "1") then "bad-op" else
       s!"ok {PqModel.Search.find (nf == "1") (asc == "1") ix v} {PqModel.Search.writerOrder z ix}"
+    | _, _, _, _ => "bad-op"
+  | ["find.z2", nf, asc, zn, zx, mins, maxs, v] => some <|
+    match parseList? parseOptInt? mins, parseList? parseOptInt? maxs, parseInt? v, parseInt? zn, parseInt? zx with
+    | some mn, some mx, some v, some zn, some zx =>
+      let ix : PqModel.Search.Index := { mins := mn, maxs := mx }
+      if mn.length ≠ mx.length || (nf != "0" && nf != "1") then "bad-op" else
+      s!"ok {PqModel.Search.find (nf == "1") (asc == "1") ix v} {PqModel.Search.writerOrder2 zn zx ix}"
+    | _, _, _, _, _ => "bad-op"
+  | ["find.f", nf, asc, z, mins, maxs, v] => some <|
+    match parseList? parseFB? mins, parseList? parseFB? maxs, parseInt? v, parseInt? z with
+    | some mn, some mx, some v, some z =>
+      let ix : PqModel.Search.FIndex := { mins := mn, maxs := mx }
+      if mn.length ≠ mx.length || (nf != "0" && nf != "1") then "bad-op" else
+      s!"ok {PqModel.Search.findF (nf == "1") (asc == "1") ix v} {PqModel.Search.writerOrderF z ix}"
     | _, _, _, _ => "bad-op"
   | ["multi.find", nf, z, chunks, vs] => some <|
     match parseChunks? chunks, parseList? parseInt? vs, parseInt? z with
